@@ -13,6 +13,7 @@ type Parser struct {
 	didEndStatement bool
 	inFunction      bool
 	inLoop          bool
+	lexErr          error
 }
 
 type parseRule struct {
@@ -169,6 +170,9 @@ func (p *Parser) block() (StatementBlock, error) {
 		if !p.atStatementEnd() {
 			return StatementBlock{}, p.error(p.current.Pos, "unexpected end of input")
 		}
+		if p.lexErr != nil {
+			return StatementBlock{}, p.lexErr
+		}
 	}
 	if err := p.consume(RCurly); err != nil {
 		return StatementBlock{}, err
@@ -287,14 +291,18 @@ func (p *Parser) statement() (Statement, error) {
 			if p.current.Tag == In || p.current.Tag == Comma {
 				var indexIdent *ExprIdentifier
 				if p.current.Tag == Comma {
-					p.consume(Comma)
+					if err := p.consume(Comma); err != nil {
+						return nil, err
+					}
 					if err := p.consume(Ident); err != nil {
 						return nil, err
 					}
 					indexIdent = &ExprIdentifier{*p.previous}
 				}
 
-				p.consume(In)
+				if err := p.consume(In); err != nil {
+					return nil, err
+				}
 				expr, err := p.expression()
 				if err != nil {
 					return nil, err
@@ -353,22 +361,30 @@ func (p *Parser) statement() (Statement, error) {
 		if !p.inLoop {
 			return nil, p.error(p.current.Pos, "can only break inside a loop")
 		}
-		p.consume(Break)
+		if err := p.consume(Break); err != nil {
+			return nil, err
+		}
 		stmt := StatementBreak{*p.previous}
 		return &stmt, nil
 	case Continue:
 		if !p.inLoop {
 			return nil, p.error(p.current.Pos, "can only continue inside a loop")
 		}
-		p.consume(Continue)
+		if err := p.consume(Continue); err != nil {
+			return nil, err
+		}
 		stmt := StatementContinue{*p.previous}
 		return &stmt, nil
 	case Next:
-		p.consume(Next)
+		if err := p.consume(Next); err != nil {
+			return nil, err
+		}
 		stmt := StatementNext{*p.previous}
 		return &stmt, nil
 	case Exit:
-		p.consume(Exit)
+		if err := p.consume(Exit); err != nil {
+			return nil, err
+		}
 		stmt := StatementExit{*p.previous}
 		return &stmt, nil
 	default:
@@ -395,7 +411,9 @@ func (p *Parser) printStatement() (StatementPrint, error) {
 		}
 		args = append(args, expr)
 		if p.current.Tag == Comma {
-			p.consume(Comma)
+			if err := p.consume(Comma); err != nil {
+				return StatementPrint{}, err
+			}
 		} else {
 			break
 		}
@@ -416,7 +434,10 @@ func (p *Parser) atStatementEnd() bool {
 	case RCurly:
 		return true
 	case SemiColon:
-		p.consume(SemiColon)
+		if err := p.consume(SemiColon); err != nil {
+			// a lexical error right after the ';': block() reports it
+			p.lexErr = err
+		}
 		// remember that the ';' ended the statement: callers ask more than once
 		p.didEndStatement = true
 		return true
@@ -586,7 +607,9 @@ func (p *Parser) evalExprList(endToken TokenTag) ([]Expr, error) {
 		}
 		args = append(args, expr)
 		if p.current.Tag == Comma {
-			p.consume(Comma)
+			if err := p.consume(Comma); err != nil {
+				return nil, err
+			}
 		} else {
 			break
 		}
@@ -651,7 +674,9 @@ func match(p *Parser) (Expr, error) {
 			if p.current.Tag != Comma {
 				break
 			}
-			p.consume(Comma)
+			if err := p.consume(Comma); err != nil {
+				return nil, err
+			}
 		}
 
 		if err := p.consume(Arrow); err != nil {
@@ -956,7 +981,9 @@ func (p *Parser) parseFunction() (ExprFunction, error) {
 		str := p.lexer.GetString(p.previous)
 		args = append(args, str)
 		if p.current.Tag == Comma {
-			p.consume(Comma)
+			if err := p.consume(Comma); err != nil {
+				return ExprFunction{}, err
+			}
 		}
 	}
 
